@@ -309,14 +309,17 @@ func init() {
 			bfs("lsm", 5, 600, prm("oracle", "c12", "mode", "managed", "keys", 2, "big", true, "gc", true, "vlog_max_entries", 2, "l0_tables", 1, "ops", "Ba Bb Da F C0 T G Ka Ia Z"), seq("Ba Bb Ba F")),
 			sched("c15gc", 3, 16, 300, prm("variant", "iter")), sched("c15gc", 3, 16, 600, prm("variant", "delete")), sched("c15gc", 3, 16, 600, prm("variant", "snapshot"))})
 
-	planTable["C07"] = lsmPlan("Every state of the managed- and normal-mode operation-sequence space (writes, deletes, value-log values, flushes, compactions, discard-timestamp moves) is closed and re-opened read-write and, separately, read-only: the dump of ALL retained versions (including internal keys) must be identical before Close and after Open, reads at every timestamp >= the discard timestamp equal the model afterwards, and a read-only open + full read + close leaves every file byte-identical (name, size, content hash). Variants with CompactL0OnClose and different compaction settings compare visible reads; a re-open with another compression setting (tables keep the one recorded in the MANIFEST) and re-opens after a value-log GC left one key and version in two L0 tables are further transitions.",
+	planTable["C07"] = lsmPlan("Every state of the managed- and normal-mode operation-sequence space (writes, deletes, value-log values, flushes, compactions, discard-timestamp moves) is closed and re-opened read-write and, separately, read-only: the dump of ALL retained versions (including internal keys) must be identical before Close and after Open, reads at every timestamp >= the discard timestamp equal the model afterwards, and a read-only open + full read + close leaves every file byte-identical (name, size, content hash). Variants with CompactL0OnClose and different compaction settings compare visible reads; a re-open with another compression setting (tables keep the one recorded in the MANIFEST) and re-opens after a value-log GC left one key and version in two L0 tables are further transitions. Read-only opens of crash images (every persistence step of short histories, including empty / truncated log files and tables not yet in the MANIFEST): whether the open succeeds or is refused, no file may change (logical content and size).",
 		stateRule,
 		[]Stage{bfs("lsm", 5, 50, prm("oracle", "c12", "keys", 2, "reopen", true, "readonly", true, "big", true, "ops", "Sa Ba Da F C0 T R RO")), bfs("lsm", 5, 40, prm("oracle", "c12", "mode", "normal", "keys", 2, "reopen", true, "readonly", true, "ops", "Sa Sb Da F C0 R RO")),
 			bfs("lsm", 3, 30, prm("oracle", "c12", "keys", 2, "reopen", true, "closecompact", true, "ops", "Sa Sb Da F C0 T R CX")),
 			// re-open with another compression setting; re-open after a value-log GC left the same key and version in two L0 tables
 			bfs("lsm", 4, 30, prm("oracle", "c12", "mode", "normal", "keys", 2, "reopen", true, "snapshots", false, "ops", "Sa Da F C0 R RC")),
-			bfs("lsm", 2, 30, prm("oracle", "c12", "mode", "normal", "keys", 2, "big", true, "gc", true, "vlog_max_entries", 1, "reopen", true, "readonly", true, "snapshots", false, "ops", "Ba F C0 G R RO RC"), seq("Ba Bb F G F"), seq("Ba Bb F G"))},
-		[]Stage{bfs("lsm", 6, 900, prm("oracle", "c12", "keys", 2, "reopen", true, "readonly", true, "big", true, "ops", "Sa Sb Ba Da F C0 C1 T R RO")), bfs("lsm", 6, 600, prm("oracle", "c12", "mode", "normal", "keys", 2, "reopen", true, "readonly", true, "ops", "Sa Sb Da F C0 C1 R RO")), bfs("lsm", 5, 600, prm("oracle", "c12", "keys", 2, "reopen", true, "closecompact", true, "ops", "Sa Sb Da F C0 T R CX"))})
+			bfs("lsm", 2, 30, prm("oracle", "c12", "mode", "normal", "keys", 2, "big", true, "gc", true, "vlog_max_entries", 1, "reopen", true, "readonly", true, "snapshots", false, "ops", "Ba F C0 G R RO RC"), seq("Ba Bb F G F"), seq("Ba Bb F G")),
+			// read-only opens of what a crash leaves behind (orphan tables, empty or truncated log files): no file may change
+			en("crash08", 16, 40, prm("oracle", "c07ro", "len", 3, "alphabet", "T2 TV WB F C R"))},
+		[]Stage{bfs("lsm", 6, 900, prm("oracle", "c12", "keys", 2, "reopen", true, "readonly", true, "big", true, "ops", "Sa Sb Ba Da F C0 C1 T R RO")), bfs("lsm", 6, 600, prm("oracle", "c12", "mode", "normal", "keys", 2, "reopen", true, "readonly", true, "ops", "Sa Sb Da F C0 C1 R RO")), bfs("lsm", 5, 600, prm("oracle", "c12", "keys", 2, "reopen", true, "closecompact", true, "ops", "Sa Sb Da F C0 T R CX")),
+			en("crash08", 16, 600, prm("oracle", "c07ro", "len", 4, "alphabet", "T2 TV TD WB F C R GC"))})
 	planTable["C37"] = lsmPlan("The managed- and normal-mode operation-sequence spaces of C12/C01 are executed on an InMemory database (the normal-mode one with the SyncWrites option set, as an application sharing one Options value between its on-disk and in-memory instances would) against the SAME reference model that the on-disk runs are checked against (so both modes agree on every read at every step); the DropPrefix / DropAll search of C29 is run in memory as well, and the Backup/Load enumeration of C24 loads every full backup of an on-disk source into an InMemory database too; after every transition the process must hold no regular file open (scan of /proc/self/fd) and its scratch directory must still be empty.",
 		stateRule,
 		[]Stage{bfs("lsm", 5, 40, prm("oracle", "c12", "keys", 2, "inmemory", true, "nofiles", true)), bfs("lsm", 5, 40, prm("oracle", "c12", "mode", "normal", "keys", 2, "inmemory", true, "nofiles", true, "sync_writes", true, "ops", "Sa Sb Da F C0 C1 O X")),
